@@ -1,7 +1,8 @@
 (* FmtMACHO/Model.v — Apple code signatures as relic writes and reads them.
    Part 1 (this file): lib/fruit/csblob — superblob / blob index (marshalSuperBlob, newSuperItem, parseSuper), CodeDirectory
    (newCodeDirectory, parseCodeDirectory, cstring, hashFunc/hashType), the assembly of a signature (Sign), parseSignature, Verify,
-   bestDir / CodeSize / VerifyPages.  Part 2 (FmtMACHO/ModelM.v): lib/fruit/machos — header scan, size estimate, patches.
+   bestDir / CodeSize / VerifyPages (the latter two are not hand-written: CodeSize is the generated cs_code_size_of, VerifyPages the
+   generated program vp_prog run by the interpreter of FmtMACHO/VpLang.v).  Part 2 (FmtMACHO/ModelM.v): lib/fruit/machos — header scan, size estimate, patches.
    Every constant, comparison, offset expression and table is a definition of Generated/FmtMACHO_gen.v (translated from the Go
    source on every run).  Where the Go code writes to fixed POSITIONS (PutUint32(buf[4:]...), ints[3+2*i] = ..., struct field
    order) the model is written as a concatenation and is guarded by `*_layout_ok`, a boolean computed from the generated
@@ -9,7 +10,7 @@
    it can be re-proved.  Parsers use CHECKED primitives (Panic exactly where Go panics).
    The SPEC side (names starting with spec_) is written from Apple's cs_blobs.h / CSCommon.h layout and shares nothing with the code above.
    Page hashing is the model of unit C09 (C09.Model.hashpages = chunks 4096, theorem codepages_split_indep). *)
-From Relic Require Import Base.Prelude Base.Enc Generated.FmtMACHO_gen.
+From Relic Require Import Base.Prelude Base.Enc FmtMACHO.VpLang Generated.FmtMACHO_gen.
 From Relic Require C09.Model.
 
 (* ------------------------------------------------------------------ classes *)
@@ -522,40 +523,27 @@ Section WithHash2.
     | d2 :: r => best_dir r (if vfy_better_dir (negb (isSome cur)) (h_hashtype (d_hdr d2)) (match cur with Some d => h_hashtype (d_hdr d) | None => 0 end)
                              then Some d2 else cur)
     end.
+  (* CodeSize(): the generated translation of the whole function *)
   Definition code_size (s : sigblob) : Z :=
     match best_dir (sg_dirs s) None with
-    | None => 0
-    | Some d => if vfy_uses_limit64 (h_limit64 (d_hdr d)) then h_limit64 (d_hdr d) else h_limit (d_hdr d)
+    | None => cs_code_size_of true 0 0
+    | Some d => cs_code_size_of false (h_limit64 (d_hdr d)) (h_limit (d_hdr d))
     end.
-  (* int64(1 << uint8): shift counts of 64 and more give 0, 1<<63 is the most negative int64 *)
-  Definition go_page_size (log2 : Z) : Z := mm_s64 (vp_page_size log2).
-  Fixpoint vp_loop (hashes : list (option bytes)) (h : Z) (data : bytes) (remaining page_size page_len : Z) : result unit :=
-    match hashes with
-    | [] => Ok tt
-    | e :: r =>
-        if vp_exhausted remaining then Err E_PAGES else
-        let plen := if vp_short_page remaining page_size then remaining else page_len in
-        if zlen data <? plen then Err E_SHORT else                       (* io.ReadFull *)
-        if bytes_eqb (H h (ztake plen data)) (obytes e) then vp_loop r h (zdrop plen data) (vp_remaining_step remaining plen) page_size plen
-        else Err E_DIGEST
-    end.
-  (* VerifyPages on the reader io.NewSectionReader(file, 0, CodeSize()) *)
-  Definition verify_pages (s : sigblob) (file : bytes) : result unit :=
+  (* what VerifyPages reads: best directory, its page size byte, code slots (an all-zero slot is nil), digest, CodeSize() *)
+  Definition vp_input (s : sigblob) (lim : Z) : vin :=
     match best_dir (sg_dirs s) None with
-    | None => Err E_NODIR
-    | Some d =>
-        let remaining := code_size s in
-        let data := ztk remaining file in
-        if vp_single_page (h_pagesize (d_hdr d)) then
-          if vp_single_count_bad (zlen (d_codes d)) then Err E_PAGES else
-          if vp_single_size_bad (zlen data) remaining then Err E_PAGES else
-          if bytes_eqb (H (d_hash d) data) (obytes (hd None (d_codes d))) then Ok tt else Err E_DIGEST
-        else
-          if vp_page_too_large (h_pagesize (d_hdr d)) then Err E_PAGES else
-          let ps := go_page_size (h_pagesize (d_hdr d)) in
-          _ <- alloc (zlen file) ps ;;                                   (* page := make([]byte, pageSize) *)
-          vp_loop (d_codes d) (d_hash d) data remaining ps ps
+    | None => mkVin true 0 [] 0 (code_size s) lim
+    | Some d => mkVin false (h_pagesize (d_hdr d)) (map obytes (d_codes d)) (d_hash d) (code_size s) lim
     end.
+  (* VerifyPages on the reader content rd: the generated program vp_prog (FmtMACHO_gen) run by the interpreter of FmtMACHO/VpLang.v;
+     input_len bounds a single allocation (alloc_limit) *)
+  Definition verify_pages_rd (s : sigblob) (input_len : Z) (rd : bytes) : result unit :=
+    vp_exec H (vp_input s (alloc_limit input_len)) vp_prog rd.
+  (* io.NewSectionReader(file, 0, n): a negative n overflows the limit computation and the section extends to the end of the file *)
+  Definition section_reader (file : bytes) (n : Z) : bytes := if n <? 0 then file else ztk n file.
+  (* machos.Verify: VerifyPages(io.NewSectionReader(file, 0, CodeSize())) *)
+  Definition verify_pages (s : sigblob) (file : bytes) : result unit :=
+    verify_pages_rd s (zlen file) (section_reader file (code_size s)).
 End WithHash2.
 
 (* ================================================================== domains of the CodeDirectory theorems *)
